@@ -215,6 +215,30 @@ func oprfCase(t *rapid.T, si suiteInfo, mode byte) {
 	if err := skRef.UnmarshalBinary(skb); err != nil {
 		t.Fatalf("harness: sk bytes: %v", err)
 	}
+	// object reuse: the key is decoded into a PrivateKey object that has already been used with
+	// ANOTHER key (its public key was asked for, a server was built on it); everything below
+	// must behave as with a fresh object
+	if rapid.IntRange(0, 2).Draw(t, "reuseKeyObj") == 0 {
+		_, ov := si.drawScalar(t, true, "oldKey")
+		if ov.Cmp(new(big.Int).Mod(si.bytesToBig(skb), si.order)) == 0 {
+			ov = new(big.Int).Add(ov, big.NewInt(1))
+			if ov.Mod(ov, si.order).Sign() == 0 {
+				ov.SetInt64(1)
+			}
+		}
+		used := new(oprf.PrivateKey)
+		if err := used.UnmarshalBinary(si.suite, si.bigToBytes(ov)); err != nil {
+			t.Fatalf("PrivateKey.UnmarshalBinary of a canonical scalar: %v", err)
+		}
+		_ = used.Public()
+		_ = oprf.NewVerifiableServer(si.suite, used).PublicKey()
+		if err := used.UnmarshalBinary(si.suite, skb); err != nil {
+			t.Fatalf("PrivateKey.UnmarshalBinary of a marshalled key: %v", err)
+		}
+		sk = used
+		keyDesc += fmt.Sprintf(" decoded into a key object previously holding %x", si.bigToBytes(ov))
+		vlib.Class(sub, "key-object-reused")
+	}
 	pk := sk.Public()
 	pkb, _ := pk.MarshalBinary()
 	pkRef := g.NewElement().MulGen(skRef)
@@ -226,6 +250,15 @@ func oprfCase(t *rapid.T, si suiteInfo, mode byte) {
 	clientPK := pk
 	if rapid.Bool().Draw(t, "pkWire") {
 		clientPK = new(oprf.PublicKey)
+		if rapid.Bool().Draw(t, "reusePKObj") {
+			// the PublicKey object held another key before
+			os, _ := si.drawScalar(t, true, "oldPK")
+			if err := clientPK.UnmarshalBinary(si.suite, ser(g.NewElement().MulGen(os))); err != nil {
+				t.Fatalf("PublicKey.UnmarshalBinary of a valid element: %v", err)
+			}
+			_, _ = clientPK.MarshalBinary()
+			vlib.Class(sub, "public-key-object-reused")
+		}
 		if err := clientPK.UnmarshalBinary(si.suite, pkb); err != nil {
 			vlib.Report(t, key("public-key-roundtrip"), fmt.Sprintf("pk=%x err=%v", pkb, err))
 			return
